@@ -111,11 +111,14 @@ def notification(P, R):
                 kinds.append('typed: parsed value differs')
             if is_var(l) and op == '!=' and const_of(rr) == 0:
                 defs = sv.local_defs(l['name'])
-                if any('strcmp' in sx(d.ev.get('rhs') or d.ev.get('init')) for d in defs):
+                texts = [sx(d.ev.get('rhs') or d.ev.get('init')) for d in defs]
+                if any('strcmp(' in t and 'strcasecmp(' not in t and 'strncmp(' not in t for t in texts):
                     kinds.append('plain: text differs')
+                elif any('cmp(' in t for t in texts):
+                    kinds.append('WRONG: the plain-text comparison is not an exact strcmp, so some edits (e.g. letter case) are not seen as changes')
                 if any(is_field(d.ev.get('rhs') or d.ev.get('init') or {}, 'value') for d in defs):
                     kinds.append('reverted: there was a value')
-        R.ob('C15.GRD.1', bool(kinds), s, 'string hook call is guarded by its change predicate (%s)' % (kinds[0] if kinds else 'none found'), key='predicate:string:%s' % (kinds[0].split(':')[0] if kinds else 'none'))
+        R.ob('C15.GRD.1', bool(kinds) and not kinds[0].startswith('WRONG'), s, 'string hook call is guarded by its change predicate (%s)' % (kinds[0] if kinds else 'none found'), key='predicate:string:%s' % (kinds[0].split(':')[0] if kinds else 'none'))
     cp = [s for s in sv.calls('memcpy') if any(on_path(a, 'parsed') for a in s.ev['args'][:1])]
     for s in cp:
         ok = any(is_var(g[0], 'success') and g[1] == '!=' for g in sv.guards(s.bid)) or \
